@@ -87,6 +87,34 @@ fn main() {
                 }
             }
         }
+        Some("vmreserved") => {
+            // placement index → the reserved size the REAL start-up code computes for it. The VM specs
+            // are passed in the order `initialize_side_metadata` lists them: log bit, forwarding pointer
+            // (never on the side here), forwarding bits, mark bit, pinning bit, LOS mark/nursery.
+            let idx: usize = args[2].parse().unwrap();
+            let log_side = side(VMGlobalLogBitSpec::side_first().as_spec());
+            let mut i = 0;
+            for locals in local_placements() {
+                for log_on_side in [false, true] {
+                    if i == idx {
+                        let mut specs = vec![];
+                        if log_on_side {
+                            specs.push(log_side);
+                        }
+                        for name in ["VMLocalForwardingBitsSpec", "VMLocalMarkBitSpec", "VMLocalPinningBitSpec", "VMLocalLOSMarkNurserySpec"] {
+                            if let Some(s) = locals.iter().find(|s| s.name == name) {
+                                specs.push(*s);
+                            }
+                        }
+                        println!("{{\"placement\":{},\"reserved\":{}}}", idx, mmtk::verif::meta::reserved_bytes_for_vm_specs(&specs));
+                        return;
+                    }
+                    i += 1;
+                }
+            }
+            eprintln!("no such placement");
+            std::process::exit(2);
+        }
         Some("core") => {
             println!("{{\"core\":{}}}", list_json(&mmtk::verif::meta::core_side_metadata_specs()));
         }
